@@ -16,7 +16,7 @@
    log bytes / PROCESS_LOG payloads are `tr d` (see eff_written). *)
 From Coq Require Import ZArith List Bool Lia.
 Import ListNotations.
-Require Import SV.Common.
+Require Import SV.Common SV.C08.Gen_tokens.
 
 Definition bytes := list Z.
 Definition zlen (b : bytes) : Z := Z.of_nat (length b).
@@ -60,11 +60,15 @@ Definition find_prefix_at_end (h t : bytes) : nat := fpe_loop h t (length t - 1)
      blen = len(b)
      if len(self.buf) + blen > self.maxbytes: self.buf = self.buf[blen:]
      self.buf += b
-     if len(self.buf) > self.maxbytes: self.buf = self.buf[len(self.buf) - self.maxbytes:] *)
+     if len(self.buf) > self.maxbytes: self.buf = self.buf[len(self.buf) - self.maxbytes:]
+   The two comparison operators are read from the source by gen/c08_tokens.py
+   (boundio_drop_cmp, boundio_clamp_cmp; the translator rejects any other shape
+   of the method), so an edited operator changes the model and the BoundIO laws
+   of CaptureProofs.v are re-checked against it. *)
 Definition bound_write (maxb : Z) (buf b : bytes) : bytes :=
-  let buf1 := if (zlen buf + zlen b >? maxb)%Z then skipn (length b) buf else buf in
+  let buf1 := if boundio_drop_cmp (zlen buf + zlen b) maxb then skipn (length b) buf else buf in
   let buf2 := buf1 ++ b in
-  if (zlen buf2 >? maxb)%Z
+  if boundio_clamp_cmp (zlen buf2) maxb
   then skipn (Z.to_nat (Z.min (zlen buf2) (zlen buf2 - maxb))) buf2
   else buf2.
 
